@@ -558,20 +558,20 @@ def run(chk):
     cases = corpus_cases()
     global VIA_FIXED
     VIA_FIXED = not chk.thorough
-    nrand = 60 if chk.thorough else 12
+    nrand = 60 if chk.thorough else 8
     pool = make_pool(chk.rng.split("pool"), 12 if chk.thorough else 5)
     for i in range(nrand):
         r = chk.rng.split(i)
-        c = gen_history(r, 14 if chk.thorough else 11, pool)
+        c = gen_history(r, 14 if chk.thorough else 10, pool)
         c["kind"] = "random"
         cases.append(c)
     cases += enum_cases(2 if chk.thorough else 1)
-    evaluate(chk, cases, failures, disagreements, spawn_check=8 if chk.thorough else 2)
+    evaluate(chk, cases, failures, disagreements, spawn_check=8 if chk.thorough else 1)
     chk.cov["rule"] = ("corpus + %d random histories over a pool of %d configurations drawn for the run (2-5 metamodel configurations per history incl. a twin sharing the user classes and an invalid grammar, 1-3 slots, "
                        "up to %d operations: creations and loads via string/file/string+filename over valid inputs and inputs failing at the parse, before and after the end "
                        "of construction and in a model processor) + all histories of length <= %d over 3 metamodels x 3 inputs + 2 re-creations; every operation compared with "
                        "the same operation on a fresh process state; persistent state after every operation compared with Model/History.v; non-trivial = at least two loads and "
-                       "(a failing operation or two slots); distinct by configuration list and operation list" % (nrand, len(pool["cfgs"]), 14 if chk.thorough else 11, 2 if chk.thorough else 1))
+                       "(a failing operation or two slots); distinct by configuration list and operation list" % (nrand, len(pool["cfgs"]), 14 if chk.thorough else 10, 2 if chk.thorough else 1))
     chk.cov["exhaustive"] = False
     chk.assumptions += [
         "parsing, model construction, reference resolution and processors are oracles of the state machine (they may depend arbitrarily on the modelled view of the persistent state); "
